@@ -188,12 +188,15 @@ _add(PropertySpec(
 
 _add(PropertySpec(
     'C20', 'other',
+    functions=['ampycloud.plots.diagnostics.DiagnosticPlot.save'],
     extras=[_fs.c20], bounded=_bounded('c20'),
-    explanation=('PROVED (F): no plotting function writes the chunk, a module-level object or the global generator; every chunk method the '
+    explanation=('PROVED (P): DiagnosticPlot.save (real AST, format lists of any length) hands Figure.savefig exactly one name per requested '
+                 'format, in order, each being <stem>.<format> with the stem kept whole (dots in it included), and "pdf" when no format '
+                 'is given.  PROVED (F): no plotting function writes the chunk, a module-level object or the global generator; every chunk method the '
                  'plots call is read-only; rcParams are only changed inside matplotlib style contexts, which restore them; the writes of '
                  'diagnostic() are bounded by {open figures, files, log, warnings}.  NOT DECIDED: that matplotlib raises nothing for every '
-                 'data shape, that no figure stays open and that exactly the requested files are written: checked on a scene grammar x upto '
-                 'x show_ceilos x formats (B).'),
+                 'data shape, that no figure stays open and that matplotlib writes exactly the files named: checked on a scene grammar x upto '
+                 'x show_ceilos x formats x file stems with and without dots (B).'),
     assumptions=[A_FRAME, 'plt.style.context restores rcParams on every exit'],
     not_decided=['totality of matplotlib drawing calls; index safety of colour / marker subscripts (not yet under a full-mode contract)'],
 ))
